@@ -84,6 +84,42 @@ def run(db, chk):
         got = any(c.block in seen for c in final)
         want = SPEC.get(combo, False)
         chk.ob("argument-safety-table", "prepare_invocation user=%s host=%s" % combo, got == want, "host argument emitted: %s, allowed: %s" % (got, want), "%s:%d" % (pi.file, pi.line), key="safety-table|%s|%s" % combo)
+    # a Dangerous host (leading '-') is only ever emitted glued behind `user@`: on the (Usable user, Dangerous host) combination the argument is
+    # produced by a format! in prepare_invocation itself, or by a helper ALL of whose return paths come out of a format! - never by a path that
+    # hands the host through unchanged
+    combo = ("Usable", "Dangerous")
+    seen = {0}
+    st = [0]
+    while st:
+        b = st.pop()
+        succs = pi.succs(b)
+        if b in sel_at:
+            i, edges = sel_at[b]
+            succs = [t for t, names in edges.items() if combo[i] in names]
+        for s_ in succs:
+            if s_ not in seen:
+                seen.add(s_); st.append(s_)
+    producers = set()
+    for c in final:
+        for r in pfl.roots(c.args[1], stop_named=False, sites=True, stop_calls=r"fmt::format$|alloc::fmt::format"):
+            if r[0] == "call" and len(r) > 2 and r[2] in seen and not re.search(r"::(into|to_owned|clone|deref|as_ref|borrow|from|to_string|as_str|map|ok_or\w*|branch|from_residual|must_use|unwrap\w*)$", r[1]) \
+                    and not r[1].endswith("_as_argument"):
+                producers.add((r[1], r[2]))
+    def only_format(fn_name, depth=0):
+        if re.search(r"fmt::format$", fn_name):
+            return True
+        g = next((x for x in db.by_crate["gix_transport"] if x.name == fn_name and x.kind != "promoted"), None)
+        if g is None or depth > 2:
+            return False
+        gfl = Flow(g)
+        rs = gfl.roots(0, stop_named=False, sites=True, stop_calls=r"fmt::format$")
+        if any(r[0] == "arg" for r in rs):
+            return False       # a parameter can reach the return value without going through format!
+        return any(r[0] == "call" and re.search(r"fmt::format$", r[1]) for r in rs)
+    bad = [n for n, b in producers if not only_format(n)]
+    chk.ob("dangerous-host-only-behind-user-at", "prepare_invocation (Usable user, Dangerous host)", bool(producers) and not bad,
+           "the argument for a host starting with '-' is produced by %s, which can return the host without the `user@` prefix (e.g. for an empty user name): ssh receives it as an option" % sorted(bad),
+           "%s:%d" % (pi.file, pi.line), key="dangerous-host-prefix|prepare_invocation")
     # connect(): host only when Usable
     cn = db.one(r"^gix_transport::client::blocking_io::ssh::connect$")
     cfl = Flow(cn)
